@@ -385,6 +385,10 @@ class Parser:
                     # Negating a zero literal yields negative zero, a signed
                     # literal — fold it here so the sign survives regardless of
                     # context (a `Neg` under REAL loses it). See `as_real`.
+                    # The operand may itself be such a folded `-0.0`, whose
+                    # negation is `+0.0`.
+                    if isinstance(arg.as_real(), Float):
+                        return Decnum('0.0', loc)
                     return Decnum('-0.0', loc)
                 elif isinstance(arg, Integer):
                     return Integer(-arg.val, loc)
